@@ -59,7 +59,8 @@ Definition ack_code (a : option bool) : Z := match a with Some true => 1 | Some 
    per request (batches in order, then the unsent ones): acknowledgement (0 none, 1 Ok, 2 Err),
    visibility to a query of the still running process (-1 if it died), visibility after restart;
    then: alive, hits (alive) or the point it died at, log invariant on the file as left,
-   log consistent after the restart's recompute, writes work after restart, query interface = tables *)
+   log consistent after the restart's recompute, writes work after restart, query interface = tables,
+   the writer stays in service (no batch behind a failed one is reported failed: C13_never_wedged_holds, one fault per run) *)
 Definition run_model (c : c13case) : list Z :=
   match c with
   | CSkip => []
@@ -71,7 +72,7 @@ Definition run_model (c : c13case) : list Z :=
       flat_map (fun x => [ack_code (it_ack x); live (it_req x); vis dr (it_req x)]) (rr_items r)
       ++ flat_map (fun x : req * bool => [if snd x then 2 else 0; live (fst x); vis dr (fst x)]) unsent
       ++ [zb (rr_alive r); zn (if rr_alive r then rr_hits r else rr_last r);
-          zb (loginv_b d'); zb (consistent_b dr); 1; 1]
+          zb (loginv_b d'); zb (consistent_b dr); 1; 1; 1]
   end.
 
 (* ---- the property's own oracle, judged on what the IMPLEMENTATION did ---- *)
@@ -98,8 +99,8 @@ Definition spec_C13 (c : c13case) (obs : list Z) : bool :=
   | CSkip => true
   | CRun init batches unsent f =>
       match triples (length (concat batches) + length unsent) obs with
-      | Some (ts, [alive; hits; inv0; cns; again; api; wf]) =>
-          forallb req_ok ts && Z.eqb inv0 1 && Z.eqb cns 1 && Z.eqb again 1 && Z.eqb api 1
+      | Some (ts, [alive; hits; inv0; cns; again; api; svc; wf]) =>
+          forallb req_ok ts && Z.eqb inv0 1 && Z.eqb cns 1 && Z.eqb again 1 && Z.eqb api 1 && Z.eqb svc 1
       | _ => false
       end
   end.
